@@ -41,7 +41,7 @@ CellOK(t, pre, post) == CASE t.k = "exact" -> post = t.v
                           [] t.k = "same"  -> post = pre
                           [] t.k = "oz"    -> post = pre \/ post = 0
                           [] t.k = "any"   -> TRUE
-IsZeroCell(t, pre) == (t.k = "exact" /\ t.v = 0) \/ (t.k = "same" /\ pre = 0)
+IsZeroCell(t, pre) == (t.k = "exact" /\ t.v = 0) \/ (t.k \in {"same", "oz"} /\ pre = 0)
 
 (* template over the whole arena: cells in DOMAIN over get over[i], all others
    must keep their value; a change there is a write outside the destination (C01). *)
